@@ -118,6 +118,44 @@ def runOne (sup : Meth → List GEff) (x : Ctx) (r : Run) (ge : GEff) : Run :=
 def runBody (sup : Meth → List GEff) (x : Ctx) (l : List GEff) (s : St) : St :=
   (l.foldl (runOne sup x) ⟨s, false⟩).s
 
+/-! ## `DeleteNodesWithTag`: a loop over the children that calls `DeleteNode` -/
+
+/-- what the `for … range` ranges over -/
+inductive RangeOver
+  /-- a copy of the child list made before the loop: `children := append(Nodes{}, node.Nodes()...)` -/
+  | copyOfKids
+  /-- `node.Nodes()` itself, the slice the body shrinks in place -/
+  | kidsInPlace
+  | bad (src : String)
+deriving Repr, DecidableEq
+
+inductive LoopTest
+  /-- `n.Tag().Is(tag)` -/
+  | tagIs
+  | bad (src : String)
+deriving Repr, DecidableEq
+
+inductive LoopStmt
+  /-- `node.DeleteNode(n)` on the loop variable -/
+  | deleteNodeCall
+  | bad (src : String)
+deriving Repr, DecidableEq
+
+structure TagLoop where
+  over : RangeOver
+  test : LoopTest
+  body : List LoopStmt
+deriving Repr, DecidableEq
+
+/-- the loop run on the model: for every child `c` of the copy, in order, if its tag is `t` then the
+    model's own `n.DeleteNode(c)` step.  Any other shape is outside the fragment. -/
+def runTagLoop (fl : Flags) (l : TagLoop) (n : Id) (t : Str) (s : St) : Option St :=
+  match l.over, l.test, l.body with
+  | .copyOfKids, .tagIs, [.deleteNodeCall] =>
+    some (((abs s).kids n).foldl
+      (fun u c => if (abs u).tag c == t then (exec fl u (.deleteNode n c)).1 else u) s)
+  | _, _, _ => none
+
 /-! ## the version protocol of a cached getter -/
 
 inductive HitCond
